@@ -84,6 +84,11 @@ def run(ctx):
         st = [n_ for n_, o in enumerate(c["ops"]) if o.get("stuck")]
         if st:
             fails.append(("the expiry routine of an instance whose instant created + 5/4 lifetime had passed did not finish (op %d): the instance stays in the table" % st[0], c))
+    for c in cases:
+        if c["name"].startswith("open-") and any(r_[1] == 0 for r_ in (c["ops"][-1]["table"] or [])):
+            last = c["ops"][-1]
+            fails.append(("real Open path (%s): %d ms after its creation (lifetime %d ms, so past created + 1.25 x lifetime and after a renewal) the first token's instance is still in the client's instance table: chunks under its keys stay accepted" % (
+                "context of Open cancelled after Open returned" if "cancelled" in c["name"] else "context kept alive", last["now"] // 1000000, c["ops"][0]["life"] // 1000000), c))
     tfail = []
     for t in timing:
         lo = t["life_ms"] * 5 // 4
@@ -104,7 +109,7 @@ def run(ctx):
     ctx.coverage.update({
         "evaluations": len(cases),
         "distinct_nontrivial": len({json.dumps([(o["op"], o.get("chan"), o.get("token"), o["key"], o.get("dt"), o.get("life")) for o in c["ops"]]) for c in cases if sum(1 for o in c["ops"] if o["op"] == "install") >= 2}),
-        "rule": "3 fixed + %d seeded histories of 3-14 operations on a real client SecureChannel (Sign mode, toy MAC keys): token installation as handleOpenSecureChannelResponse does it (fresh token ids / the same token id on every renewal / token id = channel id / mixed; lifetimes 0,1ns,0.4s,1s,2.5s,10s,1h; creation instants now or in the past), virtual clock ticks after which the implementation's own expiry routine is run for every instance whose instant has passed, chunks secured with current, superseded, expired and never-issued keys sent over TCP; after every operation the instance table (key, object, token id, keys) and the accept/reject result are compared with the model inside Coq; plus 2 real-time runs of the expiry routine (0.4 s, 0.9 s lifetimes) checking the instant created + 5/4 lifetime; distinct = distinct histories with at least two installations" % n,
+        "rule": "3 fixed + %d seeded histories of 3-14 operations on a real client SecureChannel (Sign mode, toy MAC keys): token installation as handleOpenSecureChannelResponse does it (fresh token ids / the same token id on every renewal / token id = channel id / mixed; lifetimes 0,1ns,0.4s,1s,2.5s,10s,1h; creation instants now or in the past), virtual clock ticks after which the implementation's own expiry routine is run for every instance whose instant has passed, chunks secured with current, superseded, expired and never-issued keys sent over TCP; after every operation the instance table (key, object, token id, keys) and the accept/reject result are compared with the model inside Coq; plus 2 histories through the REAL Open path (client channel against a scripted server, lifetime 3 s, automatic renewal, context of Open cancelled right after Open / kept alive; instance table polled until created + 1.25 lifetime + 0.2 lifetime) and 2 real-time runs of the expiry routine (0.4 s, 0.9 s lifetimes) checking the instant created + 5/4 lifetime; distinct = distinct histories with at least two installations" % n,
         "samples": [cases[0], cases[-1]] + timing[:1],
         "recv_operations": nrecv, "recv_rejected": nexp,
         "traces_validated_against_impl": len(cases),
